@@ -25,6 +25,21 @@ CHECKS = {
    "Generated message sequences (0..65533-byte payloads, up to 3600 messages per direction so that key rotations are crossed) between two PeerManagers under generated read cuts and write budgets must arrive exactly and in order; an independent BOLT-8 implementation playing initiator or responder checks key agreement, byte-for-byte ciphertext equality, and that every tampered, truncated, replayed, swapped or wrongly keyed handshake act, length header or body makes read_event fail with nothing from the affected unit (or after it) reaching a handler, that nothing but Init is acted on before Init, and that arbitrary bytes never panic. Search, not proof.",
    "The in-memory driver honours the SocketDescriptor contract; lightning-net-tokio itself is not exercised; gossip broadcasts are excluded from the delivery oracle by design; message codecs are trusted here (C13).",
    "DESIGN.md §6 C15"),
+ "C09": ("netsim", "exploration",
+   "stateful property-based testing with a harness-owned Persist implementation (generated InProgress/Completed answers and completion orders); invariants relating the persistence history to everything the node emits",
+   "Generated pair and three-node-line schedules (immediate and deferred ChainMonitor) in which the harness decides per update whether persistence is InProgress and when, and in which order, completions are reported; checked on the recorded history: update ids per channel are gap-free and increasing; the k-th new commitment_signed / revoke_and_ack depends on the k-th update carrying the counterparty / holder commitment and leaves only when that update and all earlier ones are complete; forwarded adds, upstream fulfils, PaymentClaimed and PaymentForwarded need the completed update they depend on; after completing and delivering everything the peers accept what was released and no HTLC is left half-way. Search, not proof.",
+   "Step kinds are read from the Debug rendering of ChannelMonitorUpdate (unknown names abort as inconclusive); channel opening with asynchronous initial persistence is not part of the generated schedule yet; Persist follows the documented switching contract.",
+   "DESIGN.md §6 C09"),
+ "C13": ("vprop", "exploration",
+   "property-based testing of every ln::msgs codec against independent per-message wire-layout templates (BOLT 1/2/4/7), plus structure-aware destructive mutation, arbitrary-byte totality and an exhaustive sweep of all 65536 type ids through wire::read",
+   "For all 50 peer message types: canonical bytes produced by an independent layout description must decode, re-encode to exactly those bytes and round-trip to an equal value (so encoder and decoder are both tied to the specified layout, not only to each other); struct-first strategies check encode->decode equality; for every valid encoding every truncation, unknown odd/even TLV, non-minimal BigSize, duplicated / misordered record, wrong inner length, invalid point / signature / boolean is decoded with the verdict derived from the template; arbitrary and mutated bytes never panic and anything that decodes re-encodes stably; reads never pass the declared length (poisoned FixedLengthReader); all 65536 type ids are dispatched through the hooked wire::read. Search (exhaustive only for the type-id sweep), not proof.",
+   "Wire-level delivery through PeerManager (unknown odd message ignored / unknown even disconnects) is exercised under C15, not here; messages behind cfg(simple_close) are checked at codec level only; libsecp256k1 and rust-bitcoin consensus encoding are trusted.",
+   "DESIGN.md §6 C13"),
+ "C14": ("vprop", "exploration",
+   "property-based testing of onion construction/peeling and failure/fulfil attribution against an independent BOLT-4 reference (own ChaCha20, Sphinx peel, route blinding, failure wrap/decode, attribution decoder), plus exhaustive grids over path length x failing position",
+   "Generated paths of 1..27 hops with generated amounts, expiries, channel ids, recipient fields (metadata, custom TLVs, keysend) and blinded tails, with the largest fitting hop count found constructively: each hop's peel_payment_onion must return exactly that hop's instructions and a 1366-byte next packet equal to the reference's, one hop or one byte beyond the fit must be refused, any single corrupted byte of packet / key / HMAC / payment hash must be rejected by the next hop; failures built at hop k (every failure code, data 0..60000 bytes) and wrapped by hops k-1..0 must be attributed to hop k with the original code and data and report the generated hold times, damaged packets are never decoded as a different valid failure. Path-length x failing-position grids are enumerated completely. Search, not proof.",
+   "Trampoline onions and the netsim end-to-end cross-check are not covered; the fulfil-side consumer (decode_fulfill_attribution_data) is crate-private, so fulfil hold times are read by the reference decoder; CLTV deltas are generated inside LDK's relay policy.",
+   "DESIGN.md §6 C14"),
 }
 
 NOT_YET = {
